@@ -17,7 +17,7 @@ import (
 // ListenerManager over simnet. Oracle: the system must quiesce with every call
 // returned; afterwards the manager must still be usable.
 func init() {
-	Register(&Scenario{Name: "c13", Prop: "C13", MaxSteps: 20000, Run: runC13})
+	Register(&Scenario{Name: "c13", LivelockIsViolation: true, Prop: "C13", MaxSteps: 20000, Run: runC13})
 }
 
 var c13Addrs = []string{"127.0.0.1:9000", "127.0.0.1:9001", "[::]:9002"}
@@ -66,6 +66,7 @@ func runC13(rc *RunCtx) {
 	}
 	// In a quarter of the runs one of the binds of the concurrent phase fails
 	// (address busy): the failed call must return too and leave the manager usable.
+	injected := 0
 	if G.Draw(4) == 0 {
 		failAt := G.Draw(4)
 		nb := 0
@@ -74,12 +75,45 @@ func runC13(rc *RunCtx) {
 			nb++
 			if nb-1 == failAt {
 				simrt.Probe("bind_failed_during_concurrent_phase")
+				injected++
 				return syscall.EADDRINUSE
 			}
 			return nil
 		}
 	}
 	rc.Phase = "concurrent"
+	// Traffic during the concurrent phase: connections and datagrams arrive on the
+	// addresses while handles are acquired and released (nobody has to take them).
+	if nTraffic := G.Draw(4); nTraffic > 0 {
+		w := simnet.W()
+		for k := 0; k < nTraffic; k++ {
+			k := k
+			addr := c13Addrs[G.Draw(nAddr)]
+			j := jitter(G)
+			tcp := G.Draw(2) == 0
+			simrt.GoDaemon(fmt.Sprintf("c13-traffic-%d", k), func() {
+				j()
+				ip, port := dialIP(addr)
+				if tcp {
+					if c, err := w.Connect(nil, ip, port); err == nil {
+						simrt.Probe("connection_during_listen_close_churn")
+						buf := make([]byte, 1)
+						c.Read(buf) // until the server side closes it
+						c.Close()
+					}
+					return
+				}
+				src := net.IPv4(198, 18, 14, byte(1+k)).To4()
+				if ip.To4() == nil {
+					src = net.ParseIP(fmt.Sprintf("2001:db8:14::%x", 1+k))
+				}
+				if fs, err := w.BindUDP(&net.UDPAddr{IP: src, Port: 7400 + k}); err == nil {
+					fs.WriteToUDP([]byte("noise"), &net.UDPAddr{IP: ip, Port: port})
+					fs.Close()
+				}
+			})
+		}
+	}
 	for t := 0; t < nTasks; t++ {
 		t := t
 		nOps := 1 + G.Draw(5)
@@ -114,15 +148,21 @@ func runC13(rc *RunCtx) {
 					h.Close()
 				case st.kind == 0:
 					op.desc = "ListenStream " + st.addr
+					inj0 := injected
 					ln, err := m.ListenStream(st.addr)
 					if err == nil {
 						held = append(held, ln)
+					} else if injected == inj0 {
+						rc.Failf("spurious-listen-error:stream", "task %d: ListenStream(%s) failed with %v although nothing else holds the address and no bind failure was injected: no sequential order of the calls explains it", t, st.addr, err)
 					}
 				default:
 					op.desc = "ListenPacket " + st.addr
+					inj0 := injected
 					pc, err := m.ListenPacket(st.addr)
 					if err == nil {
 						held = append(held, pc)
+					} else if injected == inj0 {
+						rc.Failf("spurious-listen-error:packet", "task %d: ListenPacket(%s) failed with %v although nothing else holds the address and no bind failure was injected: no sequential order of the calls explains it", t, st.addr, err)
 					}
 				}
 				op.done = true
